@@ -1,12 +1,819 @@
-/- C20 model — placeholder until the property is built -/
+/-
+  C20 — web routes and websocket messages reach their Klong handler exactly once, intact.
+
+  Mirrors (repaired tree, branch fix-c20):
+    klongpy/web/sys_fn_web.py
+      eval_sys_fn_create_web_server   -> `regStep` / `build`   (the two `for route, fn in …items()` loops,
+                                         the arity / KGCall skips, `KGFnWrapper(klong, fn)`, the closures
+                                         `_get` / `_post` with `fn=fn_wrapped, route=route` default arguments)
+      _get / _post                    -> `request`             (try: 200 str(fn(params)) / except: 400)
+      eval_sys_fn_shutdown_web_server -> `webc`                (1 and stop when the runner is live, else 0)
+    klongpy/types.py
+      KGFnWrapper.__init__/_find_symbol -> `findSym`           (first symbol of the context bound to the object)
+      KGFnWrapper.__call__              -> `resolve`, `invoke` (re-resolution by name, arity check)
+    klongpy/ws/sys_fn_ws.py
+      NetworkClient._run/_listen, run_command_on_klongloop, execute_server_command -> `Ws.listen`, `Ws.run`
+      encode_message / NumpyEncoder.default -> `encode`        (`scalars` = the repaired default())
+      NetworkClient.call                    -> `send`
+      decode_message (json.loads), json.dumps -> `parse`, `render` (modelled, CPython's json is trusted)
+
+  The closure capture is explicit: `Capture.early` is what the code does (default arguments
+  evaluated when `def` runs), `Capture.late` is the variant in which `_get`/`_post` read the
+  loop variables `fn_wrapped`/`route` when the request arrives.
+-/
 import Klong.Model.Wire
 namespace Klong.C20
+open Klong.Wire
+
+/-! ## Json: values, text codec (json.dumps defaults / json.loads) -/
+
+inductive JVal
+  | null
+  | bool (b : Bool)
+  | num (n : Int)
+  | real (lit : String)          -- a float, by its literal (repr round-trips through float: trusted)
+  | str (s : String)
+  | arr (xs : List JVal)
+  | obj (kvs : List (String × JVal))
+deriving Repr, Inhabited
+
+/-- decimal digits of a natural number (fuel = n+1 is always enough) -/
+def digitChar (d : Nat) : Char := Char.ofNat (48 + d)
+
+def natDigitsF : Nat → Nat → List Char
+  | 0, _ => []
+  | f + 1, n => if n < 10 then [digitChar n] else natDigitsF f (n / 10) ++ [digitChar (n % 10)]
+
+def natDigits (n : Nat) : List Char := natDigitsF (n + 1) n
+
+def intDigits (n : Int) : List Char :=
+  if n < 0 then '-' :: natDigits n.natAbs else natDigits n.natAbs
+
+def hex4 (n : Nat) : List Char :=
+  [hexChar (n / 4096 % 16), hexChar (n / 256 % 16), hexChar (n / 16 % 16), hexChar (n % 16)]
+
+/-- json.dumps with ensure_ascii=True: `"` `\` and everything outside ' '..'~' is escaped -/
+def escChar (c : Char) : List Char :=
+  if c = '"' then ['\\', '"']
+  else if c = '\\' then ['\\', '\\']
+  else if c = '\n' then ['\\', 'n']
+  else if c = '\r' then ['\\', 'r']
+  else if c = '\t' then ['\\', 't']
+  else if c = '\x08' then ['\\', 'b']
+  else if c = '\x0c' then ['\\', 'f']
+  else if 32 ≤ c.toNat ∧ c.toNat ≤ 126 then [c]
+  else if c.toNat < 65536 then '\\' :: 'u' :: hex4 c.toNat
+  else
+    let n := c.toNat - 65536
+    ('\\' :: 'u' :: hex4 (55296 + n / 1024)) ++ ('\\' :: 'u' :: hex4 (56320 + n % 1024))
+
+def escChars : List Char → List Char
+  | [] => []
+  | c :: cs => escChar c ++ escChars cs
+
+def renderStr (s : String) : List Char := '"' :: (escChars s.toList ++ ['"'])
+
+mutual
+/-- `json.dumps(v)` with the default separators `", "` and `": "` -/
+def render : JVal → List Char
+  | .null => ['n', 'u', 'l', 'l']
+  | .bool true => ['t', 'r', 'u', 'e']
+  | .bool false => ['f', 'a', 'l', 's', 'e']
+  | .num n => intDigits n
+  | .real l => l.toList
+  | .str s => renderStr s
+  | .arr xs => '[' :: (renderElems xs ++ [']'])
+  | .obj kvs => '{' :: (renderMembers kvs ++ ['}'])
+def renderElems : List JVal → List Char
+  | [] => []
+  | [v] => render v
+  | v :: w :: t => render v ++ (',' :: ' ' :: renderElems (w :: t))
+def renderMembers : List (String × JVal) → List Char
+  | [] => []
+  | [(k, v)] => renderStr k ++ (':' :: ' ' :: render v)
+  | (k, v) :: p :: t => renderStr k ++ (':' :: ' ' :: render v) ++ (',' :: ' ' :: renderMembers (p :: t))
+end
+
+def isWs (c : Char) : Bool := c = ' ' || c = '\n' || c = '\t' || c = '\r'
+
+def skipWs : List Char → List Char
+  | [] => []
+  | c :: cs => if isWs c then skipWs cs else c :: cs
+
+def isDigit (c : Char) : Bool := 48 ≤ c.toNat && c.toNat ≤ 57
+
+def isNumChar (c : Char) : Bool :=
+  isDigit c || c = '-' || c = '+' || c = '.' || c = 'e' || c = 'E'
+
+/-- the maximal prefix of number characters -/
+def takeNum : List Char → List Char × List Char
+  | [] => ([], [])
+  | c :: cs => if isNumChar c then ((takeNum cs).1 |> (c :: ·), (takeNum cs).2) else ([], c :: cs)
+
+def digitsVal (ds : List Char) : Nat := ds.foldl (fun a c => a * 10 + (c.toNat - 48)) 0
+
+def dropDigits : List Char → List Char
+  | [] => []
+  | c :: cs => if isDigit c then dropDigits cs else c :: cs
+
+/-- `[eE][+-]?digits` or nothing -/
+def validExp : List Char → Bool
+  | [] => true
+  | e :: r =>
+    (e = 'e' || e = 'E') &&
+    (match r with
+     | '+' :: c :: r' => isDigit c && (dropDigits r').isEmpty
+     | '-' :: c :: r' => isDigit c && (dropDigits r').isEmpty
+     | c :: r' => isDigit c && (dropDigits r').isEmpty
+     | [] => false)
+
+/-- `(.digits)?` then the exponent -/
+def validFrac : List Char → Bool
+  | '.' :: c :: r => isDigit c && validExp (dropDigits r)
+  | r => validExp r
+
+/-- the JSON number grammar `-?(0|[1-9][0-9]*)(.[0-9]+)?([eE][+-]?[0-9]+)?` -/
+def validNum (tok : List Char) : Bool :=
+  match (match tok with | '-' :: r => r | r => r) with
+  | [] => false
+  | c :: r => if c = '0' then validFrac r else isDigit c && validFrac (dropDigits r)
+
+def leadingZero : List Char → Bool
+  | '0' :: _ :: _ => true
+  | _ => false
+
+/-- a number token: an integer when it is an optional '-' and digits, else a real kept by its literal -/
+def numOfToken (tok : List Char) : Option JVal :=
+  match tok with
+  | '-' :: ds =>
+    if !ds.isEmpty && ds.all isDigit then
+      if leadingZero ds then none else some (.num (-(digitsVal ds : Int)))
+    else if validNum tok then some (.real (String.ofList tok)) else none
+  | ds =>
+    if !ds.isEmpty && ds.all isDigit then
+      if leadingZero ds then none else some (.num (digitsVal ds))
+    else if validNum tok then some (.real (String.ofList tok)) else none
+
+/-- hex digit of either case (json.loads accepts both, json.dumps emits lower case) -/
+def hexDigitAny (c : Char) : Option Nat :=
+  if 'A' ≤ c ∧ c ≤ 'F' then some (c.toNat - 'A'.toNat + 10) else hexDigit c
+
+def unhex4 (a b c d : Char) : Option Nat :=
+  match hexDigitAny a, hexDigitAny b, hexDigitAny c, hexDigitAny d with
+  | some w, some x, some y, some z => some (w * 4096 + x * 256 + y * 16 + z)
+  | _, _, _, _ => none
+
+def consStr (c : Char) (r : Option (List Char × List Char)) : Option (List Char × List Char) :=
+  match r with
+  | some (s, rest) => some (c :: s, rest)
+  | none => none
+
+/-- body of a string after the opening quote: (characters, rest after the closing quote).
+    The fuel bounds the number of characters looked at. -/
+def parseStrBody : Nat → List Char → Option (List Char × List Char)
+  | 0, _ => none
+  | _ + 1, [] => none
+  | f + 1, c :: r =>
+    if c = '"' then some ([], r)
+    else if c = '\\' then
+      match r with
+      | 'u' :: h1 :: h2 :: h3 :: h4 :: r1 =>
+        match unhex4 h1 h2 h3 h4 with
+        | none => none
+        | some hi =>
+          if 55296 ≤ hi ∧ hi < 56320 then
+            match r1 with
+            | '\\' :: 'u' :: l1 :: l2 :: l3 :: l4 :: r2 =>
+              match unhex4 l1 l2 l3 l4 with
+              | some lo =>
+                if 56320 ≤ lo ∧ lo < 57344 then
+                  consStr (Char.ofNat (65536 + (hi - 55296) * 1024 + (lo - 56320))) (parseStrBody f r2)
+                else none
+              | none => none
+            | _ => none
+          else if 56320 ≤ hi ∧ hi < 57344 then none
+          else consStr (Char.ofNat hi) (parseStrBody f r1)
+      | '"' :: r1 => consStr '"' (parseStrBody f r1)
+      | '\\' :: r1 => consStr '\\' (parseStrBody f r1)
+      | '/' :: r1 => consStr '/' (parseStrBody f r1)
+      | 'n' :: r1 => consStr '\n' (parseStrBody f r1)
+      | 'r' :: r1 => consStr '\r' (parseStrBody f r1)
+      | 't' :: r1 => consStr '\t' (parseStrBody f r1)
+      | 'b' :: r1 => consStr '\x08' (parseStrBody f r1)
+      | 'f' :: r1 => consStr '\x0c' (parseStrBody f r1)
+      | _ => none
+    else if c.toNat < 32 then none
+    else consStr c (parseStrBody f r)
+
+mutual
+/-- recursive descent with fuel (every level consumes a character, so `length + 1` suffices) -/
+def parseV : Nat → List Char → Option (JVal × List Char)
+  | 0, _ => none
+  | f + 1, cs =>
+    match skipWs cs with
+    | [] => none
+    | c :: r =>
+      if c = '"' then
+        match parseStrBody (r.length + 1) r with
+        | some (s, r') => some (.str (String.ofList s), r')
+        | none => none
+      else if c = '[' then
+        match skipWs r with
+        | ']' :: r' => some (.arr [], r')
+        | _ => match parseElems f r with
+          | some (xs, r') => some (.arr xs, r')
+          | none => none
+      else if c = '{' then
+        match skipWs r with
+        | '}' :: r' => some (.obj [], r')
+        | _ => match parseMembers f r with
+          | some (kvs, r') => some (.obj kvs, r')
+          | none => none
+      else if c = 'n' then
+        match r with
+        | 'u' :: 'l' :: 'l' :: r' => some (.null, r')
+        | _ => none
+      else if c = 't' then
+        match r with
+        | 'r' :: 'u' :: 'e' :: r' => some (.bool true, r')
+        | _ => none
+      else if c = 'f' then
+        match r with
+        | 'a' :: 'l' :: 's' :: 'e' :: r' => some (.bool false, r')
+        | _ => none
+      else if isNumChar c then
+        match numOfToken (takeNum (c :: r)).1 with
+        | some v => some (v, (takeNum (c :: r)).2)
+        | none => none
+      else none
+/-- elements after `[` or `,` up to and including the closing `]` -/
+def parseElems : Nat → List Char → Option (List JVal × List Char)
+  | 0, _ => none
+  | f + 1, cs =>
+    match parseV f cs with
+    | none => none
+    | some (v, r) =>
+      match skipWs r with
+      | ',' :: r' =>
+        match parseElems f r' with
+        | some (xs, r'') => some (v :: xs, r'')
+        | none => none
+      | ']' :: r' => some ([v], r')
+      | _ => none
+/-- members after `{` or `,` up to and including the closing `}` -/
+def parseMembers : Nat → List Char → Option (List (String × JVal) × List Char)
+  | 0, _ => none
+  | f + 1, cs =>
+    match skipWs cs with
+    | '"' :: r =>
+      match parseStrBody (r.length + 1) r with
+      | none => none
+      | some (k, r1) =>
+        match skipWs r1 with
+        | ':' :: r2 =>
+          match parseV f r2 with
+          | none => none
+          | some (v, r3) =>
+            match skipWs r3 with
+            | ',' :: r4 =>
+              match parseMembers f r4 with
+              | some (kvs, r5) => some ((String.ofList k, v) :: kvs, r5)
+              | none => none
+            | '}' :: r4 => some ([(String.ofList k, v)], r4)
+            | _ => none
+        | _ => none
+    | _ => none
+end
+
+/-- `json.loads` -/
+def parse (cs : List Char) : Option JVal :=
+  match parseV (cs.length + 1) cs with
+  | some (v, r) => if (skipWs r).isEmpty then some v else none
+  | none => none
+
+/-! ## Web -/
+
+abbrev Name := String
+abbrev Path := String
+abbrev Params := List (String × String)
+abbrev LogEntry := Nat × Params            -- (identity of the function whose body ran, its argument)
+
+inductive Capture | early | late
+deriving DecidableEq, Repr
+
+inductive Method | get | post
+deriving DecidableEq, Repr
+
+/-- what one invocation of a handler body does -/
+inductive Outcome
+  | ret (text : String)     -- returns a value whose `str()` is `text`
+  | raised
+deriving DecidableEq, Repr
+
+/-- a Klong function object: identity (`is`), arity, behaviour of its body on a parameter dictionary -/
+structure Fn where
+  id : Nat
+  arity : Nat
+  beh : Params → Outcome
+
+/-- a value of the interpreter: a plain KGFn, a KGCall (e.g. a wrapped Python callable), anything else -/
+inductive EVal
+  | fn (f : Fn)
+  | call
+  | other
+
+/-- global variables in order of first definition (the order `KlongContext.__iter__` yields them) -/
+abbrev Env := List (Name × EVal)
+
+def Env.define (e : Env) (n : Name) (v : EVal) : Env :=
+  if e.any (fun p => p.1 == n) then e.map (fun p => if p.1 == n then (n, v) else p)
+  else e ++ [(n, v)]
+
+def isFnWithId (i : Nat) : EVal → Bool
+  | .fn g => g.id == i
+  | _ => false
+
+/-- `KGFnWrapper._find_symbol`: the first symbol whose value *is* the function object -/
+def findSym (env : Env) (f : Fn) : Option Name :=
+  (env.find? fun p => isFnWithId f.id p.2).map (·.1)
+
+/-- `KGFnWrapper(klong, fn)` -/
+structure Wrapped where
+  orig : Fn
+  sym : Option Name
+
+def wrap (env : Env) (f : Fn) : Wrapped := ⟨f, findSym env f⟩
+
+/-- `KGFnWrapper.__call__`: the current definition of the remembered symbol if it is a plain
+    function, otherwise the function object given at registration -/
+def resolve (env : Env) (w : Wrapped) : Fn :=
+  match w.sym with
+  | none => w.orig
+  | some n =>
+    match env.lookup n with
+    | some (.fn g) => g
+    | _ => w.orig
+
+/-- call through the wrapper with one argument: arity mismatch raises before the body runs -/
+def invoke (env : Env) (w : Wrapped) (ps : Params) : List LogEntry × Outcome :=
+  let g := resolve env w
+  if g.arity = 1 then ([(g.id, ps)], g.beh ps) else ([], .raised)
+
+structure Closure where
+  fn : Wrapped
+  route : Path
+
+/-- how `_get` / `_post` reach `fn` and `route` -/
+inductive Slot
+  | bound (c : Closure)      -- default arguments: evaluated when the `def` statement runs
+  | free                     -- free variables: read from the enclosing scope when the handler runs
+
+/-- the locals `route`, `fn_wrapped` of eval_sys_fn_create_web_server (shared by both loops) -/
+structure Vars where
+  route : Option Path := none
+  wrapped : Option Wrapped := none
+
+structure Reg where
+  table : List (Path × Slot) := []
+  vars : Vars := {}
+
+/-- one iteration of `for route, fn in y.items()` -/
+def regStep (cap : Capture) (env : Env) (r : Reg) (e : Path × EVal) : Reg :=
+  let vars1 : Vars := { r.vars with route := some e.1 }
+  match e.2 with
+  | .fn f =>
+    if f.arity = 1 then
+      let w := wrap env f
+      let slot := match cap with
+        | .early => Slot.bound ⟨w, e.1⟩
+        | .late => Slot.free
+      { table := r.table ++ [(e.1, slot)], vars := { vars1 with wrapped := some w } }
+    else { r with vars := vars1 }          -- "handler function requires arity 1": continue
+  | _ => { r with vars := vars1 }          -- KGCall ("cannot be a function call") / arity 0: continue
+
+abbrev Routes := List (Path × EVal)
+
+structure Server where
+  gets : List (Path × Slot)
+  posts : List (Path × Slot)
+  vars : Vars
+  env : Env
+  up : Bool
+
+/-- `.web(addr; gets; posts)` -/
+def build (cap : Capture) (env : Env) (gets posts : Routes) : Server :=
+  let rg := gets.foldl (regStep cap env) {}
+  let rp := posts.foldl (regStep cap env) { table := [], vars := rg.vars }
+  { gets := rg.table, posts := rp.table, vars := rp.vars, env := env, up := true }
+
+def closureOf (v : Vars) : Slot → Option Closure
+  | .bound c => some c
+  | .free =>
+    match v.wrapped, v.route with
+    | some w, some r => some ⟨w, r⟩
+    | _, _ => none
+
+inductive Resp
+  | ok (body : String)      -- 200
+  | bad                     -- 400 "Invalid request"
+  | notFound                -- 404 (aiohttp router)
+  | notAllowed              -- 405 (aiohttp router: path known, other method)
+  | noAnswer                -- connection refused
+deriving DecidableEq, Repr
+
+def respOf : Outcome → Resp
+  | .ret t => .ok t
+  | .raised => .bad
+
+def Server.table (s : Server) : Method → List (Path × Slot)
+  | .get => s.gets
+  | .post => s.posts
+
+def Method.other : Method → Method
+  | .get => .post
+  | .post => .get
+
+/-- one HTTP request: the response and the handler invocations it caused -/
+def request (s : Server) (m : Method) (p : Path) (ps : Params) : Resp × List LogEntry :=
+  if !s.up then (.noAnswer, [])
+  else
+    match (s.table m).lookup p with
+    | some slot =>
+      match closureOf s.vars slot with
+      | some c => (respOf (invoke s.env c.fn ps).2, (invoke s.env c.fn ps).1)
+      | none => (.bad, [])                  -- NameError inside the try block
+    | none =>
+      if ((s.table m.other).lookup p).isSome then (.notAllowed, []) else (.notFound, [])
+
+inductive Op
+  | req (m : Method) (p : Path) (ps : Params)
+  | define (n : Name) (v : EVal)           -- `n::…` evaluated between requests
+  | webc                                    -- `.webc(wh)`
+
+inductive Out
+  | resp (r : Resp)
+  | defined
+  | closed (ret : Nat)
+deriving DecidableEq, Repr
+
+def step (s : Server) : Op → Server × Out × List LogEntry
+  | .req m p ps => (s, .resp (request s m p ps).1, (request s m p ps).2)
+  | .define n v => ({ s with env := s.env.define n v }, .defined, [])
+  | .webc => if s.up then ({ s with up := false }, .closed 1, []) else (s, .closed 0, [])
+
+def run (s : Server) : List Op → Server × List Out × List LogEntry
+  | [] => (s, [], [])
+  | op :: ops =>
+    ((run (step s op).1 ops).1, (step s op).2.1 :: (run (step s op).1 ops).2.1,
+     (step s op).2.2 ++ (run (step s op).1 ops).2.2)
+
+/-! ### specification: look the route up in the dictionaries the user passed -/
+
+/-- the routes a dictionary registers: plain functions of arity 1, with the symbol found for them -/
+def registered (env : Env) : Routes → List (Path × Wrapped)
+  | [] => []
+  | (p, .fn f) :: t => if f.arity = 1 then (p, wrap env f) :: registered env t else registered env t
+  | (_, _) :: t => registered env t
+
+structure Spec where
+  gets : List (Path × Wrapped)
+  posts : List (Path × Wrapped)
+  env : Env
+  up : Bool
+
+def specOf (env : Env) (gets posts : Routes) : Spec :=
+  { gets := registered env gets, posts := registered env posts, env := env, up := true }
+
+def Spec.table (a : Spec) : Method → List (Path × Wrapped)
+  | .get => a.gets
+  | .post => a.posts
+
+def Spec.request (a : Spec) (m : Method) (p : Path) (ps : Params) : Resp × List LogEntry :=
+  if !a.up then (.noAnswer, [])
+  else
+    match (a.table m).lookup p with
+    | some w => (respOf (invoke a.env w ps).2, (invoke a.env w ps).1)
+    | none => if ((a.table m.other).lookup p).isSome then (.notAllowed, []) else (.notFound, [])
+
+def Spec.step (a : Spec) : Op → Spec × Out × List LogEntry
+  | .req m p ps => (a, .resp (a.request m p ps).1, (a.request m p ps).2)
+  | .define n v => ({ a with env := a.env.define n v }, .defined, [])
+  | .webc => if a.up then ({ a with up := false }, .closed 1, []) else (a, .closed 0, [])
+
+def Spec.run (a : Spec) : List Op → Spec × List Out × List LogEntry
+  | [] => (a, [], [])
+  | op :: ops =>
+    (((a.step op).1.run ops).1, (a.step op).2.1 :: ((a.step op).1.run ops).2.1,
+     (a.step op).2.2 ++ ((a.step op).1.run ops).2.2)
+
+/-! ## WsLoop: `NetworkClient._run` / `_listen` as a fold over the arriving frames -/
+
+namespace Ws
+
+/-- what arrives or happens between frames -/
+inductive Ev
+  | frame (text : List Char)       -- a text frame
+  | redef (id : Nat)               -- `.ws.m::…` re-evaluated: handler identity changes
+deriving Repr
 
 structure State where
-  unit : Unit := ()
+  alive : Bool := true             -- the `while self.running: await self._listen(…)` loop is still going
+  handler : Nat                    -- identity of the current `.ws.m`
+
+abbrev Entry := Nat × JVal         -- (handler identity, the value it was called with)
+
+def isNull : JVal → Bool
+  | .null => true
+  | _ => false
+
+/-- one `_listen` round (or a redefinition). `h` = does the handler body raise on this value. -/
+def listen (raises : Nat → JVal → Bool) (s : State) : Ev → State × List Entry
+  | .redef i => ({ s with handler := i }, [])
+  | .frame t =>
+    if !s.alive then (s, [])                        -- nobody calls recv() any more
+    else
+      match parse t with
+      | none => ({ s with alive := false }, [])     -- json.loads raises: `_run` breaks out of the loop
+      | some j =>
+        if isNull j then (s, [])                    -- r(nc, None): None is an unfilled argument, body not run
+        else if raises s.handler j then ({ s with alive := false }, [(s.handler, j)])
+        else (s, [(s.handler, j)])
+
+def run (raises : Nat → JVal → Bool) (s : State) : List Ev → State × List Entry
+  | [] => (s, [])
+  | e :: es =>
+    ((run raises (listen raises s e).1 es).1,
+     (listen raises s e).2 ++ (run raises (listen raises s e).1 es).2)
+
+end Ws
+
+/-! ## Sending: `NetworkClient.call` = `json.dumps(msg, cls=NumpyEncoder)` then `send` -/
+
+/-- the Python object Klong hands to `ws(x)` -/
+inductive KVal
+  | pyint (n : Int)                       -- int (a literal)
+  | npint (n : Int)                       -- numpy integer scalar (any arithmetic result)
+  | real (lit : String)                   -- float / np.float64 (a float subclass), by repr
+  | str (s : String)                      -- str, KGChar, KGSym
+  | arr (xs : List KVal)                  -- ndarray (`tolist()`; typed arrays hold pyint/real after tolist)
+  | dict (kvs : List (String × KVal))     -- dict with string keys
+  | undef                                 -- KGUndefined and everything else json cannot serialise
+deriving Repr, Inhabited
+
+mutual
+/-- `json.dumps(v, cls=NumpyEncoder)` as a tree; `scalars` = default() converts numpy scalars
+    (true on the repaired tree, false on the pinned tree) -/
+def encode (scalars : Bool) : KVal → Option JVal
+  | .pyint n => some (.num n)
+  | .npint n => if scalars then some (.num n) else none
+  | .real l => some (.real l)
+  | .str s => some (.str s)
+  | .arr xs =>
+    match encodeL scalars xs with
+    | some js => some (.arr js)
+    | none => none
+  | .dict kvs =>
+    match encodeD scalars kvs with
+    | some js => some (.obj js)
+    | none => none
+  | .undef => none
+def encodeL (scalars : Bool) : List KVal → Option (List JVal)
+  | [] => some []
+  | v :: t =>
+    match encode scalars v, encodeL scalars t with
+    | some j, some js => some (j :: js)
+    | _, _ => none
+def encodeD (scalars : Bool) : List (String × KVal) → Option (List (String × JVal))
+  | [] => some []
+  | (k, v) :: t =>
+    match encode scalars v, encodeD scalars t with
+    | some j, some js => some ((k, j) :: js)
+    | _, _ => none
+end
+
+mutual
+/-- the JSON reading of a Klong value (specification) -/
+def jsonView : KVal → JVal
+  | .pyint n => .num n
+  | .npint n => .num n
+  | .real l => .real l
+  | .str s => .str s
+  | .arr xs => .arr (jsonViewL xs)
+  | .dict kvs => .obj (jsonViewD kvs)
+  | .undef => .null
+def jsonViewL : List KVal → List JVal
+  | [] => []
+  | v :: t => jsonView v :: jsonViewL t
+def jsonViewD : List (String × KVal) → List (String × JVal)
+  | [] => []
+  | (k, v) :: t => (k, jsonView v) :: jsonViewD t
+end
+
+mutual
+/-- nothing unserialisable inside -/
+def sendable : KVal → Bool
+  | .undef => false
+  | .arr xs => sendableL xs
+  | .dict kvs => sendableD kvs
+  | _ => true
+def sendableL : List KVal → Bool
+  | [] => true
+  | v :: t => sendable v && sendableL t
+def sendableD : List (String × KVal) → Bool
+  | [] => true
+  | (_, v) :: t => sendable v && sendableD t
+end
+
+/-- the text frame `ws(x)` puts on the wire (none: nothing well-formed is sent) -/
+def send (scalars : Bool) (v : KVal) : Option (List Char) := (encode scalars v).map render
+
+/-! ## driver (line protocol; structured arguments travel as hex of UTF-8 JSON text) -/
+
+def hexToStr (h : String) : Option String :=
+  match parseHex h with
+  | none => none
+  | some bs => String.fromUTF8? (ByteArray.mk (bs.map UInt8.ofNat).toArray)
+
+def strToHex (s : String) : String := toHex (s.toUTF8.toList.map UInt8.toNat)
+
+def jsonField (fs : List (String × String)) (k : String) : Option JVal :=
+  match fs.lookup k with
+  | none => none
+  | some h => match hexToStr h with
+    | none => none
+    | some t => parse t.toList
+
+def JVal.get? (k : String) : JVal → Option JVal
+  | .obj kvs => kvs.lookup k
+  | _ => none
+
+def JVal.nat? : JVal → Option Nat
+  | .num n => if 0 ≤ n then some n.toNat else none
+  | _ => none
+
+def JVal.str? : JVal → Option String
+  | .str s => some s
+  | _ => none
+
+/-- handler bodies of the harness: `{rec(id;x);"text"}`, `{rec(id;x);x?"key"}`, `{rec(id;x);#x}`,
+    `{rec(id;x);boom(0)}` -/
+inductive Body
+  | const (text : String)
+  | echo (key : String)
+  | count
+  | raise
+
+def Body.eval : Body → Params → Outcome
+  | .const t, _ => .ret t
+  | .echo k, ps => .ret ((ps.lookup k).getD ":undefined")
+  | .count, ps => .ret (String.ofList (natDigits ps.length))
+  | .raise, _ => .raised
+
+def bodyOfJson : JVal → Option Body
+  | .arr [.str "const", .str t] => some (.const t)
+  | .arr [.str "echo", .str k] => some (.echo k)
+  | .arr [.str "count"] => some .count
+  | .arr [.str "raise"] => some .raise
+  | _ => none
+
+def evalOfJson : JVal → Option EVal
+  | .str "call" => some .call
+  | .str "other" => some .other
+  | j =>
+    match j.get? "id", j.get? "arity", j.get? "body" with
+    | some i, some a, some b =>
+      match i.nat?, a.nat?, bodyOfJson b with
+      | some i, some a, some b => some (.fn ⟨i, a, b.eval⟩)
+      | _, _, _ => none
+    | _, _, _ => none
+
+/-- `[[name, value], …]` -/
+def pairsOfJson : JVal → Option (List (String × EVal))
+  | .arr xs => xs.mapM fun
+    | .arr [.str n, v] => (evalOfJson v).map fun e => (n, e)
+    | _ => none
+  | _ => none
+
+def paramsOfJson : JVal → Option Params
+  | .obj kvs => kvs.mapM fun (k, v) => v.str?.map fun s => (k, s)
+  | _ => none
+
+def paramsToJson (ps : Params) : JVal := .obj (ps.map fun (k, v) => (k, .str v))
+
+def logToJson (es : List LogEntry) : JVal :=
+  .arr (es.map fun (i, ps) => .arr [.num i, paramsToJson ps])
+
+def jsonHex (j : JVal) : String := strToHex (String.ofList (render j))
+
+def showResp : Resp → String
+  | .ok b => s!"status=200 body={strToHex b}"
+  | .bad => "status=400 body=" ++ strToHex "Invalid request"
+  | .notFound => "status=404 body="
+  | .notAllowed => "status=405 body="
+  | .noAnswer => "status=none body="
+
+def sortStrings (l : List String) : List String := (l.toArray.qsort (· < ·)).toList
+
+mutual
+def kvalOfJson : JVal → Option KVal
+  | .arr [.str "pyint", .num n] => some (.pyint n)
+  | .arr [.str "npint", .num n] => some (.npint n)
+  | .arr [.str "real", .str l] => some (.real l)
+  | .arr [.str "str", .str s] => some (.str s)
+  | .arr [.str "arr", .arr xs] => (kvalsOfJson xs).map .arr
+  | .arr [.str "dict", .obj kvs] => (kdictOfJson kvs).map .dict
+  | .arr [.str "undef"] => some .undef
+  | _ => none
+def kvalsOfJson : List JVal → Option (List KVal)
+  | [] => some []
+  | j :: t =>
+    match kvalOfJson j, kvalsOfJson t with
+    | some v, some vs => some (v :: vs)
+    | _, _ => none
+def kdictOfJson : List (String × JVal) → Option (List (String × KVal))
+  | [] => some []
+  | (k, j) :: t =>
+    match kvalOfJson j, kdictOfJson t with
+    | some v, some vs => some ((k, v) :: vs)
+    | _, _ => none
+end
+
+def wsEvsOfJson : JVal → Option (List Ws.Ev)
+  | .arr xs => xs.mapM fun
+    | .arr [.str "m", .str t] => some (.frame t.toList)
+    | .arr [.str "d", .num i] => if 0 ≤ i then some (.redef i.toNat) else none
+    | _ => none
+  | _ => none
+
+def wsLogToJson (es : List Ws.Entry) : JVal := .arr (es.map fun (i, j) => .arr [.num i, j])
+
+structure State where
+  web : Option Server := none
 
 def init : State := {}
 
-def handle (s : State) (_ws : List String) : State × String := (s, "bad-op")
+def handle (st : State) (ws : List String) : State × String :=
+  match ws with
+  | "web" :: rest =>
+    let fs := fields rest
+    let cap := match fieldD fs "cap" with
+      | "early" => some Capture.early
+      | "late" => some Capture.late
+      | _ => none
+    match cap, (jsonField fs "env").bind pairsOfJson, (jsonField fs "get").bind pairsOfJson,
+          (jsonField fs "post").bind pairsOfJson with
+    | some cap, some env, some gets, some posts =>
+      let s := build cap env gets posts
+      ({ web := some s },
+       s!"ok get={",".intercalate (sortStrings (s.gets.map fun p => strToHex p.1))} post={",".intercalate (sortStrings (s.posts.map fun p => strToHex p.1))}")
+    | _, _, _, _ => (st, "bad-op")
+  | "def" :: rest =>
+    let fs := fields rest
+    match st.web, (fs.lookup "name").bind hexToStr, (jsonField fs "val").bind evalOfJson with
+    | some s, some n, some v => ({ web := some (step s (.define n v)).1 }, "ok")
+    | _, _, _ => (st, "bad-op")
+  | "req" :: rest =>
+    let fs := fields rest
+    let m := match fieldD fs "m" with
+      | "get" => some Method.get
+      | "post" => some Method.post
+      | _ => none
+    match st.web, m, (fs.lookup "path").bind hexToStr, (jsonField fs "params").bind paramsOfJson with
+    | some s, some m, some p, some ps =>
+      let (r, es) := request s m p ps
+      (st, s!"{showResp r} log={jsonHex (logToJson es)}")
+    | _, _, _, _ => (st, "bad-op")
+  | "webc" :: _ =>
+    match st.web with
+    | some s =>
+      match step s .webc with
+      | (s', .closed r, _) => ({ web := some s' }, s!"ret={r}")
+      | _ => (st, "bad-op")
+    | none => (st, "bad-op")
+  | "ws" :: rest =>
+    let fs := fields rest
+    match natField fs "handler", (jsonField fs "evs").bind wsEvsOfJson, (jsonField fs "raises") with
+    | some h, some evs, some (.arr rs) =>
+      let ids := rs.filterMap JVal.nat?
+      let (s, log) := Ws.run (fun i _ => ids.contains i) { handler := h } evs
+      (st, s!"alive={if s.alive then 1 else 0} log={jsonHex (wsLogToJson log)}")
+    | _, _, _ => (st, "bad-op")
+  | "send" :: rest =>
+    let fs := fields rest
+    match natField fs "scalars", (jsonField fs "val").bind kvalOfJson with
+    | some sc, some v =>
+      match send (sc != 0) v with
+      | some t => (st, "text=" ++ strToHex (String.ofList t) ++ " view=" ++ jsonHex (jsonView v))
+      | none => (st, "none")
+    | _, _ => (st, "bad-op")
+  | "parse" :: rest =>
+    let fs := fields rest
+    match (fs.lookup "text").bind hexToStr with
+    | some t =>
+      match parse t.toList with
+      | some j => (st, "ok=" ++ jsonHex j)
+      | none => (st, "none")
+    | none => (st, "bad-op")
+  | _ => (st, "bad-op")
 
 end Klong.C20
